@@ -2,6 +2,9 @@ import I18n.Props.C08
 import I18n.Lemmas.MetaDeb
 import I18n.Lemmas.MetaBinary
 import I18n.Lemmas.MetaBlame
+import I18n.Lemmas.MetaRealBinary
+import I18n.Lemmas.MetaRealCharset
+import I18n.Lemmas.MetaRealHeader
 import I18n.Spec.Metamorphic
 import I18n.Generated.BinaryReads
 /-!
@@ -148,7 +151,9 @@ theorem mo_entry_view_neutral (e : Mo.Entry) (h : Translated e) : observe (ofMo 
   | plural p fs =>
     rw [hb] at h
     simp only at h
-    simp [poTranslated, h]
+    have := enumerate_any (fun x => x != []) 0 fs
+    simp only [poTranslated, this, h]
+    simp
 
 /-- without the hypothesis the two views differ in `translated()` only (`check_plurals` is the only reader) -/
 theorem mo_entry_view_untranslated (e : Mo.Entry) :
@@ -252,6 +257,23 @@ theorem po_vs_mo_unconditional_refuted : ¬ PoVsMoUnconditional := by
   simp [Spec.Metamorphic.EqModulo, check, afterLoad, runStages, pipeline, blind, datesStage, messagesStage, quietParts,
     checkDates, checkDatesField, emptyFileGate, keepLine] at this
 
+/-- the witness of that finding in the two loader models (C10's `Po.detectLine` = polib's line regex, C08's `Mo.findCharset` =
+    moparser's / gettext's `charset=` search): for the header line `Content-Type: text/plain;charset=UTF-8` the PO loader
+    finds no charset declaration, the MO loader finds `UTF-8` -/
+theorem charset_declaration_refuted :
+    Po.detectLine ("\"Content-Type: text/plain;charset=UTF-8\\n\"\n".toList.map fun c => UInt8.ofNat c.toNat) = none ∧
+    Mo.findCharset ("Content-Type: text/plain;charset=UTF-8\n".toList.map fun c => UInt8.ofNat c.toNat)
+      = some ("UTF-8".toList.map fun c => UInt8.ofNat c.toNat) := by
+  constructor <;> decide
+
+/-- … while for the usual spelling both find it -/
+theorem charset_declaration_usual :
+    Po.detectLine ("\"Content-Type: text/plain; charset=UTF-8\\n\"\n".toList.map fun c => UInt8.ofNat c.toNat)
+      = some ("UTF-8".toList.map fun c => UInt8.ofNat c.toNat) ∧
+    Mo.findCharset ("Content-Type: text/plain; charset=UTF-8\n".toList.map fun c => UInt8.ofNat c.toNat)
+      = some ("UTF-8".toList.map fun c => UInt8.ofNat c.toNat) := by
+  constructor <;> decide
+
 /-! ## 4b. why the PO file of the PO-versus-MO clause is taken in msgfmt order
 
 `unusual-character-in-translation` reports each character once per file, under the first message (in file order) whose
@@ -311,7 +333,7 @@ theorem fake_path_prefix_is_directory (dir fakeRoot path : Str) (h2 : endsWithSe
 /-- **`--unpack-deb`**: for a file the suffix dispatch accepts and the unpacker unpacks, the run is the sequence, in
     `os.walk` order, over the regular non-link files below the temporary tree, of each member's own tag calls —
     filtered by the caller's `ignore_tags` and `unknown-file-type` — printed under `<package>/<member>`. -/
-theorem deb_output (w : World) (raw : Str → List TagCall × Bool) (o : Options) (filename : Str)
+theorem deb_output (w : World) (raw : Str → List Deb.TagCall × Bool) (o : Options) (filename : Str)
     (hk : kindOf filename ≠ .unsupported) (hu : w.unpackOk = true) (hw : WalkOK w (kindOf filename)) :
     checkDeb w raw o filename = some (runAll (memberRun w raw o (kindOf filename) filename) (walkPaths w)) := by
   unfold checkDeb
@@ -333,7 +355,7 @@ theorem deb_output (w : World) (raw : Str → List TagCall × Bool) (o : Options
     exact checkRegular_member w raw o .dsc filename m hk hw.tmp_ne hw.tmp_nosep
 
 /-- when no member makes `check()` raise: the output is the concatenation of the per-member outputs, and the run ends normally -/
-theorem deb_output_lines (w : World) (raw : Str → List TagCall × Bool) (o : Options) (filename : Str)
+theorem deb_output_lines (w : World) (raw : Str → List Deb.TagCall × Bool) (o : Options) (filename : Str)
     (hk : kindOf filename ≠ .unsupported) (hu : w.unpackOk = true) (hw : WalkOK w (kindOf filename))
     (hraw : ∀ p ∈ walkPaths w, (raw p).2 = false) :
     checkDeb w raw o filename =
@@ -343,21 +365,21 @@ theorem deb_output_lines (w : World) (raw : Str → List TagCall × Bool) (o : O
   simp [memberRun, hraw p hp]
 
 /-- in every case what is printed is a prefix of that concatenation (nothing else is ever printed) -/
-theorem deb_lines_prefix (w : World) (raw : Str → List TagCall × Bool) (o : Options) (filename : Str)
+theorem deb_lines_prefix (w : World) (raw : Str → List Deb.TagCall × Bool) (o : Options) (filename : Str)
     (hk : kindOf filename ≠ .unsupported) (hu : w.unpackOk = true) (hw : WalkOK w (kindOf filename)) :
     ∃ r, checkDeb w raw o filename = some r ∧
       r.lines <+: (walkPaths w).flatMap (fun p => (memberRun w raw o (kindOf filename) filename p).lines) :=
   ⟨_, deb_output w raw o filename hk hu hw, runAll_lines_prefix _ _⟩
 
 /-- **nothing for other members**: a member for which `check()` only says `unknown-file-type` prints nothing -/
-theorem deb_other_member_silent (w : World) (raw : Str → List TagCall × Bool) (o : Options) (k : Kind) (filename p : Str)
+theorem deb_other_member_silent (w : World) (raw : Str → List Deb.TagCall × Bool) (o : Options) (k : Kind) (filename p : Str)
     (h : ∀ c ∈ (raw p).1, c.name = unknownFileType) : (memberRun w raw o k filename p).lines = [] := by
   simp only [memberRun, cliTags, List.map_eq_nil_iff, List.filter_eq_nil_iff]
   intro c hc
   simp [h c hc]
 
 /-- a member's line is one of its own tag calls, not ignored, not `unknown-file-type`, under `<package>/<member>` -/
-theorem deb_member_line (w : World) (raw : Str → List TagCall × Bool) (o : Options) (k : Kind) (filename p : Str) (l : Line)
+theorem deb_member_line (w : World) (raw : Str → List Deb.TagCall × Bool) (o : Options) (k : Kind) (filename p : Str) (l : Line)
     (hl : l ∈ (memberRun w raw o k filename p).lines) :
     ∃ c ∈ (raw p).1, c.name ≠ unknownFileType ∧ c.name ∉ o.ignoreTags ∧
       l = ⟨c.prio, filename ++ sep :: member w k p, c.rest⟩ := by
@@ -367,7 +389,7 @@ theorem deb_member_line (w : World) (raw : Str → List TagCall × Bool) (o : Op
   exact ⟨c, hc, hf'.1, hf'.2, rfl⟩
 
 /-- the roots `check_deb` builds always satisfy `Checker.__init__`: no `ValueError` -/
-theorem deb_no_value_error (w : World) (raw : Str → List TagCall × Bool) (o : Options) (filename : Str)
+theorem deb_no_value_error (w : World) (raw : Str → List Deb.TagCall × Bool) (o : Options) (filename : Str)
     (hk : kindOf filename ≠ .unsupported) (hu : w.unpackOk = true) (hw : WalkOK w (kindOf filename)) :
     ∀ r, checkDeb w raw o filename = some r → r.exit ≠ .valueError := by
   intro r hr
@@ -385,7 +407,7 @@ theorem deb_no_value_error (w : World) (raw : Str → List TagCall × Bool) (o :
 
 /-- **a file that is not a package** (other suffix, or the unpacker fails) is checked as a regular file, with the options
     of the caller (so `unknown-file-type` is reported for it unless the caller ignores it) -/
-theorem not_a_package_is_regular (w : World) (raw : Str → List TagCall × Bool) (o : Options) (path : Str)
+theorem not_a_package_is_regular (w : World) (raw : Str → List Deb.TagCall × Bool) (o : Options) (path : Str)
     (h : kindOf path = .unsupported ∨ w.unpackOk = false) : checkFile w raw o path = checkRegular raw o path := by
   unfold checkFile
   split
@@ -397,12 +419,194 @@ theorem not_a_package_is_regular (w : World) (raw : Str → List TagCall × Bool
     rw [this]
   · rfl
 
-theorem no_unpack_is_regular (w : World) (raw : Str → List TagCall × Bool) (o : Options) (path : Str)
+theorem no_unpack_is_regular (w : World) (raw : Str → List Deb.TagCall × Bool) (o : Options) (path : Str)
     (h : o.unpackDeb = false) : checkFile w raw o path = checkRegular raw o path := by
   simp [checkFile, h]
 
 /-- `fake_root`, `fake_path` and `ignore_tags` are used by `Checker.__init__`/`Checker.tag`/`check_deb` only -/
 theorem option_uses_pinned : Generated.BinaryReads.optionUses = Spec.Metamorphic.documentedOptionUses := rfl
+
+/-! ## 6. the composed checker: C10's loader, the stage models of C15 / C19 / C07 / C20 / C18 / C16 / C14 -/
+
+section Composed
+open I18n.Spec.PoSpelling
+
+/-- **Two PO files that spell the same catalog get identical diagnostics** — no hypothesis about the loader left.
+    `SpelledFile` (Lemmas/MetaPo.lean) bundles the side conditions of C10's `load_spells_detected_partial`, all of them about
+    the file's bytes and lines: it declares its charset on the first line polib's pattern matches, it decodes, its lines are
+    a spelling (`Spec.PoSpelling.CatalogSp`: wrapping, escape style, blank lines, comments …) followed by lines `Codecs.open`
+    drops.  "The same catalog": the same header comment and the same entries (`EntrySp.entry`: everything but polib's line
+    numbers).  `PyEnv`: the interpreter's `isspace` / `isdigit` / `int` are the dumped tables.  For any `ctx` built from what
+    lib/check/ can see of the loaded file, and any stages. -/
+theorem po_spelling_invariant {σ τ : Type} (env : Po.Env) (hpy : PyEnv env) (E1 E2 : Codec) (name1 name2 : Po.Bytes)
+    (cat1 cat2 : CatalogSp) (file1 file2 : Po.Bytes)
+    (h1 : SpelledFile env E1 name1 cat1 file1) (h2 : SpelledFile env E2 name2 cat2 file2)
+    (hheader : cat1.headerText = cat2.headerText) (hentries : cat1.entries.map EntrySp.entry = cat2.entries.map EntrySp.entry)
+    (statOk : Bool) (ext : Ext) (init : Po.Text × List Po.Entry → Bool → σ) (stages : List (Stage σ τ)) :
+    check statOk ext (poLoad env file1) (fun f b => init (poView f) b) stages
+      = check statOk ext (poLoad env file2) (fun f b => init (poView f) b) stages := by
+  obtain ⟨f1, l1, v1⟩ := poLoad_spelled env hpy E1 name1 cat1 file1 h1
+  obtain ⟨f2, l2, v2⟩ := poLoad_spelled env hpy E2 name2 cat2 file2 h2
+  exact check_same_view statOk ext _ _ poView init stages f1 f2 l1 l2 (by rw [v1, v2, hheader, hentries])
+
+/-- the same for the composed checker (`Real.checkPo`: C10's loader, then the ten stage models) -/
+theorem po_spelling_invariant_composed (w : Real.World) (env : Po.Env) (hpy : PyEnv env) (E1 E2 : Codec) (name1 name2 : Po.Bytes)
+    (cat1 cat2 : CatalogSp) (file1 file2 : Po.Bytes)
+    (h1 : SpelledFile env E1 name1 cat1 file1) (h2 : SpelledFile env E2 name2 cat2 file2)
+    (hheader : cat1.headerText = cat2.headerText) (hentries : cat1.entries.map EntrySp.entry = cat2.entries.map EntrySp.entry)
+    (isTemplate statOk : Bool) :
+    Real.checkPo w env isTemplate statOk file1 = Real.checkPo w env isTemplate statOk file2 :=
+  po_spelling_invariant env hpy E1 E2 name1 name2 cat1 cat2 file1 file2 h1 h2 hheader hentries statOk _ (Real.ctxOfPo isTemplate) (Real.pipeline w)
+
+/-- **Two MO files that encode the same catalog get identical diagnostics**, for the composed checker -/
+theorem mo_layout_invariant_composed (w : Real.World) (db : Mo.CodecDB) (b1 b2 : Mo.Bytes) (cat : List CatEntry) (hidden : Bool)
+    (h1 : Encodes b1 cat hidden) (h2 : Encodes b2 cat hidden) (hwf : ∀ e ∈ cat, e.WF) (statOk : Bool) :
+    Real.checkMo w db statOk b1 = Real.checkMo w db statOk b2 :=
+  mo_layout_invariant db b1 b2 cat hidden h1 h2 hwf statOk Real.ctxOfMo (Real.pipeline w)
+
+/-- **C17, first two sentences, for the composed model** (C10 loader / C08 loader, then the stage models of C15, C19, C07,
+    C20, C18, C16, C14).  Remaining assumptions, all explicit: `PyEnv` and `SpelledFile` for the two PO files (facts about
+    the files' bytes: C10's exclusions — a cut inside an escaped multibyte character, two string tokens on a line,
+    `msgstr[N]` with N ≥ 10, a charset declared after an earlier matching line — are outside `SpelledFile`), `Encodes` + `WF`
+    for the MO files (C08); the stage models' own inputs (`World`) are the same on both sides.  Transcoding is
+    `transcoding_composed` below. -/
+theorem same_catalog_same_diagnostics (w : Real.World) :
+    (∀ (env : Po.Env) (_ : PyEnv env) (E1 E2 : Codec) (name1 name2 : Po.Bytes) (cat1 cat2 : CatalogSp) (file1 file2 : Po.Bytes),
+      SpelledFile env E1 name1 cat1 file1 → SpelledFile env E2 name2 cat2 file2 →
+      cat1.headerText = cat2.headerText → cat1.entries.map EntrySp.entry = cat2.entries.map EntrySp.entry →
+      ∀ isTemplate statOk, Real.checkPo w env isTemplate statOk file1 = Real.checkPo w env isTemplate statOk file2) ∧
+    (∀ (db : Mo.CodecDB) (b1 b2 : Mo.Bytes) (cat : List CatEntry) (hidden : Bool),
+      Encodes b1 cat hidden → Encodes b2 cat hidden → (∀ e ∈ cat, e.WF) →
+      ∀ statOk, Real.checkMo w db statOk b1 = Real.checkMo w db statOk b2) :=
+  ⟨fun env hpy E1 E2 n1 n2 c1 c2 f1 f2 h1 h2 hh he tpl st =>
+      po_spelling_invariant_composed w env hpy E1 E2 n1 n2 c1 c2 f1 f2 h1 h2 hh he tpl st,
+   fun db b1 b2 cat hidden h1 h2 hwf st => mo_layout_invariant_composed w db b1 b2 cat hidden h1 h2 hwf st⟩
+
+/-- **PO versus MO for the composed checker.**  Same `ctx` apart from `is_binary`, MO revision hides nothing: the MO run
+    prints exactly the PO run's lines without the `no-date-header-field POT-Creation-Date` of `check_dates`, in the same
+    order, and raises iff the PO run does.  The blindness of the other stages is not a hypothesis any more: the models of
+    `check_comments`, `check_headers`, `check_language`, `check_plurals`, `check_mime`, `check_project`,
+    `check_translator` do not take the flag; for `Date.checkDates` (C18) and `Msg.trace` (C16), which do, see
+    `Real.checkDates_binary` and `Real.trace_binary`. -/
+theorem po_vs_mo_composed (w : Real.World) (k : Real.RCtx) :
+    (runStages (Real.pipeline w) (⟨true, false⟩, k)).1 = (runStages (Real.pipeline w) (⟨false, false⟩, k)).1.filter Real.notExempt ∧
+    (runStages (Real.pipeline w) (⟨true, false⟩, k)).2 = (runStages (Real.pipeline w) (⟨false, false⟩, k)).2 := by
+  obtain ⟨h1, h2⟩ := runStages_sim (BinRel true) Real.notExempt _ _ (Real.pipeline_respects w) (⟨true, false⟩, k) (⟨false, false⟩, k)
+    ⟨rfl, rfl, rfl, fun _ => rfl⟩
+  refine ⟨?_, h2⟩
+  rw [← h1, Real.filter_notExempt_self]
+  exact Real.runStages_clean _ (Real.pipeline_clean w) _ rfl
+
+/-- `Checker.check` on a PO file and on an MO file whose loaded forms look alike to lib/check/ (same observations of the
+    entries — this is where `mo_entry_view_neutral` enters —, no header comment, MO revision hides nothing) -/
+theorem po_vs_mo_composed_check (w : Real.World) (env : Po.Env) (db : Mo.CodecDB) (statOk : Bool) (filePo : Po.Bytes) (fileMo : Mo.Bytes)
+    (f : Po.PoFile) (g : Mo.MoFile) (hp : poLoad env filePo false = .ok f) (hm : moLoad db fileMo false = .ok g)
+    (hh : g.possibleHiddenStrings = false) (hc : f.header = [])
+    (he : f.entries.map (observe ∘ ofPoEntry) = g.entries.map (observe ∘ ofMo)) :
+    Spec.Metamorphic.EqModulo (keepLine Real.notExempt) (Real.checkMo w db statOk fileMo).lines (Real.checkPo w env false statOk filePo).lines ∧
+    (Real.checkMo w db statOk fileMo).uncaught = (Real.checkPo w env false statOk filePo).uncaught := by
+  unfold Real.checkMo Real.checkPo
+  rw [check_first_ok statOk .mo _ _ _ g hm, check_first_ok statOk _ _ _ _ f hp]
+  have hk : (Real.ctxOfMo g false).2 = (Real.ctxOfPo false (poView f) false).2 := by
+    simp only [Real.ctxOfMo, Real.ctxOfPo, poView, hc, List.map_map]
+    congr 1
+    rw [← he]
+    apply List.map_congr_left
+    intro e _
+    rfl
+  have hfl : (Real.ctxOfMo g false).1 = ⟨true, false⟩ := by simp [Real.ctxOfMo, hh]
+  obtain ⟨a, b⟩ := po_vs_mo_composed w (Real.ctxOfPo false (poView f) false).2
+  unfold check
+  cases statOk
+  · exact ⟨rfl, rfl⟩
+  · simp only [Bool.not_true, Bool.false_eq_true, if_false, afterLoad, List.nil_append, Spec.Metamorphic.EqModulo,
+      filter_keepLine_map_tag, reduceCtorEq]
+    have e1 : Real.ctxOfMo g false = (⟨true, false⟩, (Real.ctxOfPo false (poView f) false).2) := by
+      rw [← hfl, ← hk]
+    have e2 : Real.ctxOfPo false (poView f) false = (⟨false, false⟩, (Real.ctxOfPo false (poView f) false).2) := rfl
+    rw [e1, e2, a, b, List.filter_filter]
+    simp
+
+/-- **C17, third sentence, end to end for the composed model.**  A PO file that spells a catalog (C10) whose messages have
+    no PO-only features (`Real.poOfMo`: no flags, comments, references, previous msgid; not obsolete), all translated, no
+    header comment — and an MO file that encodes (C08, any layout, revision without hidden strings) a byte catalog decoding
+    to the same messages: the MO run prints the PO run's lines minus `no-date-header-field POT-Creation-Date`, and ends alike.
+    (The PO entries are in the MO file's order: see `blame_is_order_sensitive`.  The loaders must agree on the charset:
+    `hdec` says what the MO loader decodes, `SpelledFile` what the PO loader does — cf. `charset_declaration_refuted`.) -/
+theorem po_file_vs_compiled_mo (w : Real.World) (env : Po.Env) (hpy : PyEnv env) (E : Codec) (name : Po.Bytes) (cat : CatalogSp)
+    (filePo : Po.Bytes) (hpo : SpelledFile env E name cat filePo)
+    (db : Mo.CodecDB) (fileMo : Mo.Bytes) (mcat : List CatEntry) (hmo : Encodes fileMo mcat false) (hwf : ∀ e ∈ mcat, e.WF)
+    (mes : List Mo.Entry) (hdec : Mo.Spec.expected db none mcat false = .ok ⟨mes, false⟩)
+    (hcomment : cat.headerText = []) (hsame : cat.entries.map EntrySp.entry = mes.map Real.poOfMo)
+    (htr : ∀ e ∈ mes, Translated e) (statOk : Bool) :
+    Spec.Metamorphic.EqModulo (keepLine Real.notExempt) (Real.checkMo w db statOk fileMo).lines (Real.checkPo w env false statOk filePo).lines ∧
+    (Real.checkMo w db statOk fileMo).uncaught = (Real.checkPo w env false statOk filePo).uncaught := by
+  obtain ⟨f, lf, vf⟩ := poLoad_spelled env hpy E name cat filePo hpo
+  have lg : moLoad db fileMo false = .ok ⟨mes, false⟩ := by
+    unfold moLoad
+    simp only [Bool.false_eq_true, if_false]
+    rw [C08.parse_of_encodes db none fileMo mcat false hmo hwf, hdec]
+  have hv : f.header = cat.headerText ∧ f.entries.map Lemmas.PoCatalog.content = cat.entries.map EntrySp.entry := by
+    simp only [poView, Prod.mk.injEq] at vf; exact vf
+  apply po_vs_mo_composed_check w env db statOk filePo fileMo f ⟨mes, false⟩ lf lg rfl (by rw [hv.1, hcomment])
+  have e1 : f.entries.map (observe ∘ ofPoEntry) = (f.entries.map Lemmas.PoCatalog.content).map (observe ∘ ofPoEntry) := by
+    rw [List.map_map]
+    apply List.map_congr_left
+    intro e _
+    exact (Real.observe_content e).symm
+  rw [e1, hv.2, hsame, List.map_map]
+  apply List.map_congr_left
+  intro e he
+  exact Real.observe_poOfMo e (htr e he)
+
+/-- **Transcoding for the composed checker.**  Two `ctx` related by `Real.TcRel`: everything equal, except that the header
+    entries' texts may differ in the charset name of their one well-formed `Content-Type: text/plain; charset=<name>` line
+    (`Real.EntryRel` / `Real.HeaderRel`: same unusual characters, same parsed lines but that one), both names known to the
+    tool (`Real.TcName`: C20's fragment returns an encoding).  Then the two runs print the same lines in the same order,
+    apart from the charset tags of `check_mime` (`Real.notCharset`: boilerplate-in-content-type, unknown-encoding,
+    non-ascii-compatible-encoding, non-portable-encoding, unrepresentable-characters), and raise alike.  The
+    charset-name-blindness of every other stage is PROVED for the instantiated models (Lemmas/MetaRealCharset.lean):
+    `check_headers` parses the name into `ctx.metadata` and prints the same tags; `check_language`, `check_plurals`,
+    `check_project`, `check_translator` read other fields; `check_dates` looks at the Content-Type value for the
+    Publican prefix only; `check_messages` and the format checkers see `ctx.encoding is not None` only.
+    `Real.DbOk`: `\b` holds between the blank and `charset` (` ` is not a word character, `c` is). -/
+theorem transcoding_composed (w : Real.World) (hdb : Real.DbOk w.hx.db) (fl : BinFlags) (k1 k2 : Real.RCtx) (h : Real.TcRel w k1 k2) :
+    Spec.Metamorphic.EqModulo Real.notCharset (runStages (Real.pipeline w) (fl, k1)).1 (runStages (Real.pipeline w) (fl, k2)).1 ∧
+    (runStages (Real.pipeline w) (fl, k1)).2 = (runStages (Real.pipeline w) (fl, k2)).2 :=
+  runStages_sim (Real.TcRelS w) Real.notCharset _ _ (Real.pipeline_respects_tc w hdb) (fl, k1) (fl, k2) ⟨rfl, h⟩
+
+/-- `Real.HeaderRel` holds by the SHAPE of the header text: its lines, each terminated by a line feed, the one Content-Type
+    field being the line `Content-Type: text/plain; charset=<name>`; the two names graphic ASCII (`Real.PlainName`) and known
+    to the tool.  (So the hypothesis of `transcoding_composed` about the header entries is: this is what they look like.) -/
+theorem transcoding_header_shape (w : Real.World) (pre post : List Real.Str) (n1 n2 : Real.Str)
+    (hl : ∀ l ∈ pre ++ post, '\n' ∉ l) (hct : ∀ l ∈ pre ++ post, ∀ v, Hdr.parseLine l ≠ .field Real.ctKey v)
+    (p1 : Real.PlainName n1) (p2 : Real.PlainName n2) (t1 : Real.TcName w n1) (t2 : Real.TcName w n2) :
+    Real.HeaderRel w (Real.terminated (pre ++ Real.ctLine n1 :: post)) (Real.terminated (pre ++ Real.ctLine n2 :: post)) :=
+  Real.headerRel_of_lines w pre post n1 n2 hl hct p1 p2 t1 t2
+
+/-- the same from the files: two spelled PO files (C10) whose catalogs have the same header comment and entries related
+    by `Real.EntryRel` — e.g. the same catalog transcoded, charset name adjusted -/
+theorem transcoding_composed_files (w : Real.World) (hdb : Real.DbOk w.hx.db) (env : Po.Env) (hpy : PyEnv env) (E1 E2 : Codec)
+    (name1 name2 : Po.Bytes) (cat1 cat2 : CatalogSp) (file1 file2 : Po.Bytes)
+    (h1 : SpelledFile env E1 name1 cat1 file1) (h2 : SpelledFile env E2 name2 cat2 file2)
+    (hheader : cat1.headerText = cat2.headerText)
+    (hentries : Real.ListRel (Real.EntryRel w) ((cat1.entries.map EntrySp.entry).map (observe ∘ ofPoEntry))
+      ((cat2.entries.map EntrySp.entry).map (observe ∘ ofPoEntry)))
+    (isTemplate statOk : Bool) :
+    Spec.Metamorphic.EqModulo (keepLine Real.notCharset) (Real.checkPo w env isTemplate statOk file1).lines
+      (Real.checkPo w env isTemplate statOk file2).lines ∧
+    (Real.checkPo w env isTemplate statOk file1).uncaught = (Real.checkPo w env isTemplate statOk file2).uncaught := by
+  obtain ⟨f1, l1, v1⟩ := poLoad_spelled env hpy E1 name1 cat1 file1 h1
+  obtain ⟨f2, l2, v2⟩ := poLoad_spelled env hpy E2 name2 cat2 file2 h2
+  unfold Real.checkPo
+  rw [check_first_ok statOk _ _ _ _ f1 l1, check_first_ok statOk _ _ _ _ f2 l2]
+  apply check_sim_ok (Real.TcRelS w) Real.notCharset statOk _ f1 f2 _ _ _ _ _ (Real.pipeline_respects_tc w hdb)
+  intro broken
+  show Real.TcRelS w (Real.ctxOfPo isTemplate (poView f1) broken) (Real.ctxOfPo isTemplate (poView f2) broken)
+  rw [v1, v2]
+  exact ⟨rfl, ⟨rfl, rfl, hheader, hentries, Real.MetaRel.refl w _, rfl, rfl, rfl⟩⟩
+
+end Composed
 
 /-! ## non-vacuity -/
 
@@ -426,7 +630,7 @@ def demoWorld : World where
   islink := fun p => p == "/tmp/T/usr/l.po".toList
   isfile := fun _ => true
 
-def demoRaw (p : Str) : List TagCall × Bool :=
+def demoRaw (p : Str) : List Deb.TagCall × Bool :=
   if p == "/tmp/T/usr/a.po".toList then ([⟨"empty-file".toList, ['W'], "empty-file".toList⟩], false)
   else ([⟨unknownFileType, ['I'], unknownFileType⟩], false)
 
@@ -442,5 +646,56 @@ example : checkDates (τ := Unit) true id (fun _ _ => []) [] ["2012-11-01 14:42+
 
 example : observe (ofMo ⟨['a'], none, .singular ['b']⟩) = observe (ofPo ⟨['a'], none, .singular ['b']⟩) := by decide
 example : ofMo ⟨['a'], none, .singular ['b']⟩ ≠ ofPo ⟨['a'], none, .singular ['b']⟩ := by decide
+
+/-! ### non-vacuity of the composed theorems: a small world, a header without POT-Creation-Date, one message -/
+
+namespace Demo
+
+def demoDb : Hdr.UDB := ⟨fun c => c.isAlphanum || c == '_', fun c => c == ' ' || c == '\t' || c == '\n', fun c => c.isDigit, id⟩
+def demoW : Real.World where
+  hx := ⟨demoDb, id, fun _ => none, fun _ => false, fun _ => none⟩
+  now := 0
+  menv := Msg.liveEnv (fun _ => .ok)
+  munch := id
+  path := []
+  optLanguage := none
+  charset := fun _ _ n => .ok ([], some n)
+  pluralForms := fun _ => (none, [])
+  reprParen := fun _ _ => []
+  kmsg := fun _ _ => .other
+
+def obsOf (msgid msgstr : String) : Obs :=
+  { msgid := msgid.toList, msgctxt := none, msgidPlural := none, msgstrOrEmpty := msgstr.toList, msgstrPlural := [], flags := [],
+    commentOrEmpty := [], occurrences := [], obsolete := false, hasPrevious := (false, false, false), translated := true }
+
+def hdr (cs : String) : String := "Language: de\nContent-Type: text/plain; charset=" ++ cs ++ "\nPO-Revision-Date: 2012-11-01 14:42+0100\n"
+def ctxOf (cs : String) : Real.RCtx :=
+  { isTemplate := false, broken := false, comments := [], entries := [obsOf "" (hdr cs), obsOf "a" "b"] }
+
+example : (runStages (Real.pipeline demoW) (⟨false, false⟩, ctxOf "UTF-8")).1.any Real.isExempt = true := by decide +kernel
+example : (runStages (Real.pipeline demoW) (⟨true, false⟩, ctxOf "UTF-8")).1.any Real.isExempt = false := by decide +kernel
+
+theorem tcName (n : String) (h1 : n.toList ≠ []) (h2 : ∀ c ∈ n.toList, demoDb.isSpace c = false ∧ c ≠ ';') : Real.TcName demoW n.toList :=
+  ⟨h1, h2, fun _ _ => ⟨[], Hdr.toName n.toList, rfl⟩⟩
+
+theorem hdrRel : Real.HeaderRel demoW (hdr "UTF-8").toList (hdr "ISO-8859-2").toList := by
+  refine ⟨by decide +kernel, ?_⟩
+  have e1 : Hdr.parseHeader (hdr "UTF-8").toList = [Hdr.Line.field "Language".toList "de".toList] ++
+      Hdr.Line.field Real.ctKey (Real.ctValue "UTF-8".toList) :: [Hdr.Line.field "PO-Revision-Date".toList "2012-11-01 14:42+0100".toList] := by decide +kernel
+  have e2 : Hdr.parseHeader (hdr "ISO-8859-2").toList = [Hdr.Line.field "Language".toList "de".toList] ++
+      Hdr.Line.field Real.ctKey (Real.ctValue "ISO-8859-2".toList) :: [Hdr.Line.field "PO-Revision-Date".toList "2012-11-01 14:42+0100".toList] := by decide +kernel
+  rw [e1, e2]
+  exact Real.LinesRel.subst _ _ _ _ (tcName "UTF-8" (by decide) (by decide)) (tcName "ISO-8859-2" (by decide) (by decide)) 
+    (by intro l hl v e; simp at hl; subst hl; injection e with e1 _; exact absurd e1 (by decide))
+    (by intro l hl v e; simp at hl; subst hl; injection e with e1 _; exact absurd e1 (by decide))
+
+/-- the two contexts are related, so `transcoding_composed` applies to them -/
+theorem ctxRel : Real.TcRel demoW (ctxOf "UTF-8") (ctxOf "ISO-8859-2") :=
+  ⟨rfl, rfl, rfl,
+   .cons (Or.inr ⟨rfl, rfl, rfl, (hdr "ISO-8859-2").toList, rfl, hdrRel⟩) (.cons (Or.inl rfl) .nil),
+   Real.MetaRel.refl _ _, rfl, rfl, rfl⟩
+
+example := transcoding_composed demoW ⟨by decide, by decide⟩ ⟨false, false⟩ _ _ ctxRel
+end Demo
 
 end I18n.Props.C17
